@@ -62,9 +62,11 @@ pub fn worker_main(def: &'static PropDef, tier: Tier, seed: u64, start: u64, str
 	crate::exec::install_panic_hook();
 	// An allocation bomb must abort this worker, not exhaust the machine.
 	// SAFETY: plain libc call with a valid pointer to an initialised struct.
-	unsafe {
-		let lim = libc::rlimit { rlim_cur: 8 << 30, rlim_max: 8 << 30 };
-		libc::setrlimit(libc::RLIMIT_AS, &lim);
+	if std::env::var_os("XTSIM_NO_RLIMIT").is_none() {
+		unsafe {
+			let lim = libc::rlimit { rlim_cur: 8 << 30, rlim_max: 8 << 30 };
+			libc::setrlimit(libc::RLIMIT_AS, &lim);
+		}
 	}
 	let inflight_dir = format!("{BUILD_DIR}/inflight");
 	let _ = std::fs::create_dir_all(&inflight_dir);
@@ -131,7 +133,7 @@ pub fn worker_main(def: &'static PropDef, tier: Tier, seed: u64, start: u64, str
 		}
 		let _ = std::fs::remove_file(&inflight_path);
 		// Distinct keys/traces go to a side file (may be large).
-		let keys_path = format!("{BUILD_DIR}/inflight/{}.{}.keys", def.id, wid);
+		let keys_path = format!("{BUILD_DIR}/inflight/{}.{}.{}.keys", def.id, wid, std::process::id());
 		let mut buf = Vec::with_capacity((agg.keys.len() + agg.traces.len()) * 8 + 16);
 		buf.extend_from_slice(&(agg.keys.len() as u64).to_le_bytes());
 		for k in &agg.keys {
@@ -208,11 +210,19 @@ pub struct IsoResult {
 /// Evaluates one case in a fresh process (so that a stack overflow, abort or
 /// CPU loop is observed rather than suffered).
 pub fn eval_isolated(def: &PropDef, case: &J, tag: &str) -> IsoResult {
+	eval_isolated_with(def, case, tag, &Exe::normal())
+}
+
+pub fn eval_isolated_with(def: &PropDef, case: &J, tag: &str, exe: &Exe) -> IsoResult {
 	let dir = format!("{BUILD_DIR}/iso");
 	let _ = std::fs::create_dir_all(&dir);
 	let path = format!("{dir}/{}-{}-{}.json", def.id, std::process::id(), tag);
 	std::fs::write(&path, serde_json::to_vec(&json!({"property": def.id, "case": case})).unwrap()).expect("write iso case");
-	let mut child = Command::new(self_exe()).arg("eval-case").arg(&path).stdout(Stdio::piped()).stderr(Stdio::null()).spawn().expect("spawn eval-case");
+	let mut cmd = Command::new(&exe.path);
+	for (k, v) in &exe.env {
+		cmd.env(k, v);
+	}
+	let mut child = cmd.arg("eval-case").arg(&path).stdout(Stdio::piped()).stderr(Stdio::null()).spawn().expect("spawn eval-case");
 	let mut out = String::new();
 	let mut stdout = child.stdout.take().unwrap();
 	let reader = std::thread::spawn(move || {
@@ -298,7 +308,7 @@ pub fn eval_case_main(def: &'static PropDef, case: J) -> i32 {
 // ------------------------------------------------------------------ minimisation
 
 /// Greedy shrinking: accept a candidate whenever a violation of the same class persists.
-pub fn minimise(def: &PropDef, case: &J, class: &str, budget: Duration) -> (J, u32) {
+pub fn minimise(def: &PropDef, case: &J, class: &str, budget: Duration, exe: &Exe) -> (J, u32) {
 	let t0 = Instant::now();
 	let mut cur = case.clone();
 	let mut steps = 0u32;
@@ -310,7 +320,7 @@ pub fn minimise(def: &PropDef, case: &J, class: &str, budget: Duration) -> (J, u
 				break 'outer;
 			}
 			tried += 1;
-			let r = eval_isolated(def, &c, "min");
+			let r = eval_isolated_with(def, &c, "min", exe);
 			if r.violations.iter().any(|(cl, _)| cl == class) {
 				cur = c;
 				steps += 1;
@@ -334,8 +344,30 @@ struct WorkerOut {
 	status: String,
 }
 
-fn spawn_worker(def: &PropDef, tier: Tier, seed: u64, start: u64, stride: u64, runs: u64, only: Option<&[u64]>, wid: usize) -> std::thread::JoinHandle<WorkerOut> {
-	let mut cmd = Command::new(self_exe());
+#[derive(Clone)]
+pub struct Exe {
+	pub path: PathBuf,
+	pub env: Vec<(String, String)>,
+}
+
+impl Exe {
+	pub fn normal() -> Exe {
+		Exe { path: self_exe(), env: vec![] }
+	}
+	pub fn asan() -> Exe {
+		Exe {
+			path: PathBuf::from(format!("{BUILD_DIR}/asan-target/x86_64-unknown-linux-gnu/release/xtsim")),
+			// Leaks are decided per run by the counting-allocator oracle of the ordinary pass.
+			env: vec![("ASAN_OPTIONS".into(), "abort_on_error=1:detect_leaks=0:allocator_may_return_null=1".into()), ("XTSIM_NO_RLIMIT".into(), "1".into())],
+		}
+	}
+}
+
+fn spawn_worker(def: &PropDef, tier: Tier, seed: u64, start: u64, stride: u64, runs: u64, only: Option<&[u64]>, wid: usize, exe: &Exe) -> std::thread::JoinHandle<WorkerOut> {
+	let mut cmd = Command::new(&exe.path);
+	for (k, v) in &exe.env {
+		cmd.env(k, v);
+	}
 	cmd.arg("worker").arg(def.id).arg(tier.name()).arg(seed.to_string()).arg(start.to_string()).arg(stride.to_string()).arg(runs.to_string()).arg(wid.to_string());
 	if let Some(list) = only {
 		cmd.arg(list.iter().map(u64::to_string).collect::<Vec<_>>().join(","));
@@ -423,50 +455,80 @@ pub fn check_main(def: &'static PropDef, opts: &CheckOpts) -> i32 {
 		}
 	}
 
-	// Main pass.
-	let mut pending: Vec<(usize, u64)> = (0..nw).map(|w| (w, w as u64)).collect();
+	// Passes: the ordinary build, and for C17 the same run indices under AddressSanitizer.
+	let mut passes: Vec<(&str, Exe, u64)> = vec![("", Exe::normal(), runs)];
+	let mut pass_info: Vec<J> = vec![];
+	if def.id == "C17" {
+		let asan = Exe::asan();
+		if asan.path.exists() {
+			passes.push(("asan/", asan, crate::props::c17::asan_runs(tier).min(runs)));
+		} else {
+			harness_faults.push(format!("AddressSanitizer build of the simulator is missing ({})", asan.path.display()));
+		}
+	}
 	let mut all_viol: Vec<(u64, String, String)> = vec![];
 	let mut t_samples: BTreeMap<u64, String> = BTreeMap::new();
 	let mut stats: Vec<J> = vec![];
 	let mut crashes = 0u64;
 	let mut known_hit: BTreeMap<String, u64> = BTreeMap::new();
-	let mut rounds = 0;
-	while !pending.is_empty() && rounds < 200 {
-		rounds += 1;
-		let handles: Vec<(usize, u64, _)> = pending.drain(..).map(|(w, start)| (w, start, spawn_worker(def, tier, seed, start, nw as u64, runs, None, w))).collect();
-		for (w, start, h) in handles {
-			let wo = h.join().expect("worker reader thread");
-			all_viol.extend(wo.violations);
-			for (_, fid, _) in &wo.known {
-				*known_hit.entry(fid.clone()).or_insert(0) += 1;
-			}
-			for (i, t) in wo.samples_t {
-				t_samples.insert(i, t);
-			}
-			let clean = wo.status == "exit:0" && wo.stats.is_some();
-			if let Some(s) = wo.stats {
-				stats.push(s);
-			}
-			if let Some(hp) = &wo.harness_panic {
-				harness_faults.push(hp.clone());
-			} else if !clean {
-				// The worker died: attribute to the in-flight run index and resume after it.
-				let inflight = wo.hang.or_else(|| std::fs::read_to_string(format!("{BUILD_DIR}/inflight/{}.{}", def.id, w)).ok().and_then(|s| s.trim().parse().ok()));
-				match inflight {
-					Some(idx) if idx >= start => {
-						crashes += 1;
-						let class = if wo.hang.is_some() { "hang/watchdog".to_owned() } else { format!("crash/{}", wo.status.replace("exit:", "exit-")) };
-						all_viol.push((idx, class, format!("worker died ({}) while evaluating run {idx}", wo.status)));
-						// A few crashes/hangs are evidence enough; do not spend the budget on dozens.
-						let limit = if wo.hang.is_some() { 4 } else { 48 };
-						if idx + (nw as u64) < runs && crashes < limit {
-							pending.push((w, idx + nw as u64));
-						}
+	for (prefix, exe, pass_runs) in &passes {
+		let t_pass = Instant::now();
+		let pass_runs = *pass_runs;
+		let nw = nw.min(pass_runs.max(1) as usize);
+		let mut pending: Vec<(usize, u64)> = (0..nw).map(|w| (w, w as u64)).collect();
+		let mut rounds = 0;
+		let mut pass_crashes = 0u64;
+		let mut pass_done = 0u64;
+		while !pending.is_empty() && rounds < 200 {
+			rounds += 1;
+			let handles: Vec<(usize, u64, _)> = pending.drain(..).map(|(w, start)| (w, start, spawn_worker(def, tier, seed, start, nw as u64, pass_runs, None, w, exe))).collect();
+			for (w, start, h) in handles {
+				let wo = h.join().expect("worker reader thread");
+				all_viol.extend(wo.violations.into_iter().map(|(i, c, m)| (i, format!("{prefix}{c}"), m)));
+				for (_, fid, _) in &wo.known {
+					*known_hit.entry(fid.clone()).or_insert(0) += 1;
+				}
+				if prefix.is_empty() {
+					for (i, t) in wo.samples_t {
+						t_samples.insert(i, t);
 					}
-					_ => harness_faults.push(format!("worker {w} ended with {} and no in-flight record", wo.status)),
+				}
+				let clean = wo.status == "exit:0" && wo.stats.is_some();
+				if let Some(s) = wo.stats {
+					pass_done += s["runs"].as_u64().unwrap_or(0);
+					stats.push(s);
+				}
+				if let Some(hp) = &wo.harness_panic {
+					harness_faults.push(hp.clone());
+				} else if !clean {
+					// The worker died: attribute to the in-flight run index and resume after it.
+					let inflight = wo.hang.or_else(|| std::fs::read_to_string(format!("{BUILD_DIR}/inflight/{}.{}", def.id, w)).ok().and_then(|s| s.trim().parse().ok()));
+					match inflight {
+						Some(idx) if idx >= start => {
+							pass_crashes += 1;
+							let class = if wo.hang.is_some() { format!("{prefix}hang/watchdog") } else { format!("{prefix}crash/{}", wo.status.replace("exit:", "exit-")) };
+							all_viol.push((idx, class, format!("worker died ({}) while evaluating run {idx}", wo.status)));
+							// A few crashes/hangs are evidence enough; do not spend the budget on dozens.
+							let limit = if wo.hang.is_some() { 4 } else { 48 };
+							if idx + (nw as u64) < pass_runs && pass_crashes < limit {
+								pending.push((w, idx + nw as u64));
+							}
+						}
+						_ => harness_faults.push(format!("worker {w} ended with {} and no in-flight record", wo.status)),
+					}
 				}
 			}
 		}
+		crashes += pass_crashes;
+		pass_info.push(json!({"pass": if prefix.is_empty() { "ordinary build" } else { "AddressSanitizer build" }, "runs": pass_done, "worker_crashes": pass_crashes, "wall_s": t_pass.elapsed().as_secs_f64()}));
+	}
+	// Third pass for C17: Miri.
+	if def.id == "C17" {
+		let t_pass = Instant::now();
+		let (mv, mruns, mfaults) = miri_pass(def, tier, seed);
+		all_viol.extend(mv);
+		harness_faults.extend(mfaults);
+		pass_info.push(json!({"pass": "Miri (cargo +nightly miri run, -Zmiri-disable-isolation)", "runs": mruns, "wall_s": t_pass.elapsed().as_secs_f64()}));
 	}
 
 	// Aggregate statistics.
@@ -517,7 +579,7 @@ pub fn check_main(def: &'static PropDef, opts: &CheckOpts) -> i32 {
 	let mut det_checked = 0u64;
 	let mut det_mismatch = 0u64;
 	if !det_idx.is_empty() {
-		let wo = spawn_worker(def, tier, seed, 0, 0, runs, Some(&det_idx), 900).join().expect("det worker");
+		let wo = spawn_worker(def, tier, seed, 0, 0, runs, Some(&det_idx), 900, &Exe::normal()).join().expect("det worker");
 		for (i, t) in wo.samples_t {
 			if let Some(t1) = t_samples.get(&i) {
 				det_checked += 1;
@@ -560,16 +622,26 @@ pub fn check_main(def: &'static PropDef, opts: &CheckOpts) -> i32 {
 		let _ = first_idx;
 		let case = (def.gen)(seed, idx, tier);
 		// Confirm in a fresh process before reporting.
-		let r = eval_isolated(def, &case, "confirm");
+		if class.starts_with("miri/") {
+			// Found by the interpreter only: the replay file carries the case; replay runs it under Miri again.
+			let path = write_replay(def, class, first_msg, seed, Some(idx), &case, 0, None);
+			viol_lines.push((format!("[{class}] x{count}: {first_msg}"), path));
+			continue;
+		}
+		let exe = if class.starts_with("asan/") { Exe::asan() } else { Exe::normal() };
+		let bare = class.strip_prefix("asan/").unwrap_or(class).to_owned();
+		let class_full = class;
+		let class = &bare;
+		let r = eval_isolated_with(def, &case, "confirm", &exe);
 		if !r.violations.iter().any(|(cl, _)| cl == class) {
 			harness_faults.push(format!("violation class '{class}' of run {idx} did not replay in a fresh process ({:?})", r.violations.iter().map(|v| &v.0).collect::<Vec<_>>()));
 			continue;
 		}
-		let (min_case, steps) = minimise(def, &case, class, Duration::from_secs(if tier == Tier::Quick { 20 } else { 60 }));
-		let r2 = eval_isolated(def, &min_case, "final");
+		let (min_case, steps) = minimise(def, &case, class, Duration::from_secs(if tier == Tier::Quick { 20 } else { 60 }), &exe);
+		let r2 = eval_isolated_with(def, &min_case, "final", &exe);
 		let msg = r2.violations.iter().find(|(cl, _)| cl == class).map_or(first_msg.clone(), |(_, m)| m.clone());
-		let path = write_replay(def, class, &msg, seed, Some(idx), &min_case, steps, Some(&case));
-		viol_lines.push((format!("[{class}] x{count}: {msg}"), path));
+		let path = write_replay(def, class_full, &msg, seed, Some(idx), &min_case, steps, Some(&case));
+		viol_lines.push((format!("[{class_full}] x{count}: {msg}"), path));
 	}
 	for (fid, n) in &known_hit {
 		if let Some(f) = kf.iter().find(|f| &f.id == fid) {
@@ -615,6 +687,7 @@ pub fn check_main(def: &'static PropDef, opts: &CheckOpts) -> i32 {
 			"components": {"real": def.real, "stub": def.stub},
 			"determinism_sample": {"checked": det_checked, "mismatches": det_mismatch},
 			"worker_crashes": crashes,
+			"passes": pass_info,
 			"violation_instances": n_viol_total,
 			"violation_instances_unattributed": unattributed,
 			"known_findings_hit": known_hit,
@@ -665,8 +738,13 @@ pub fn replay_main(def: &'static PropDef, path: &Path) -> i32 {
 		return 2;
 	};
 	let case = doc.get("case").cloned().unwrap_or(doc.clone());
-	let r = eval_isolated(def, &case, "replay");
-	let want = doc.get("class").and_then(J::as_str);
+	let want_full = doc.get("class").and_then(J::as_str).unwrap_or("").to_owned();
+	if want_full.starts_with("miri/") {
+		return miri_replay(def, path);
+	}
+	let exe = if want_full.starts_with("asan/") { Exe::asan() } else { Exe::normal() };
+	let r = eval_isolated_with(def, &case, "replay", &exe);
+	let want = doc.get("class").and_then(J::as_str).map(|w| w.strip_prefix("asan/").unwrap_or(w));
 	let mut seen: BTreeSet<String> = BTreeSet::new();
 	for (cl, msg) in &r.violations {
 		if seen.insert(cl.clone()) {
@@ -688,5 +766,95 @@ pub fn replay_main(def: &'static PropDef, path: &Path) -> i32 {
 	} else {
 		println!("replay: no violation");
 		0
+	}
+}
+
+
+// ------------------------------------------------------------------ Miri pass (C17)
+
+fn miri_cmd() -> Command {
+	let mut cmd = Command::new("cargo");
+	cmd.current_dir("/verif/sim").env("MIRIFLAGS", "-Zmiri-disable-isolation").env("CARGO_NET_OFFLINE", "true").args(["+nightly", "miri", "run", "--offline", "--target-dir", &format!("{BUILD_DIR}/miri-target"), "--"]);
+	cmd
+}
+
+/// Runs the small C17 run indices (every 4th) under Miri, 16 interpreters in parallel.
+fn miri_pass(def: &'static PropDef, tier: Tier, seed: u64) -> (Vec<(u64, String, String)>, u64, Vec<String>) {
+	let total = crate::props::c17::miri_runs(tier);
+	let mut faults = vec![];
+	// Build once (the parallel invocations then only take the lock for a freshness check).
+	let warm = miri_cmd().arg("list").stdout(Stdio::null()).stderr(Stdio::piped()).output();
+	match warm {
+		Ok(o) if o.status.success() => {}
+		Ok(o) => {
+			faults.push(format!("cargo miri run failed to build: {}", String::from_utf8_lossy(&o.stderr).lines().rev().take(3).collect::<Vec<_>>().join(" | ")));
+			return (vec![], 0, faults);
+		}
+		Err(e) => {
+			faults.push(format!("cannot start cargo miri: {e}"));
+			return (vec![], 0, faults);
+		}
+	}
+	let par = n_workers().min(16) as u64;
+	let per = total.div_ceil(par);
+	let mut handles = vec![];
+	for w in 0..par {
+		let (from, to) = (w * per * 4, ((w + 1) * per).min(total) * 4);
+		if from >= to {
+			continue;
+		}
+		handles.push(std::thread::spawn(move || {
+			let out = miri_cmd().args(["miri-run", "C17", &seed.to_string(), &from.to_string(), &to.to_string(), "4"]).stdin(Stdio::null()).output();
+			(from, out)
+		}));
+	}
+	let mut viol = vec![];
+	let mut done = 0u64;
+	for h in handles {
+		let Ok((from, out)) = h.join() else { continue };
+		let Ok(out) = out else {
+			faults.push("miri interpreter could not be started".into());
+			continue;
+		};
+		let stdout = String::from_utf8_lossy(&out.stdout).into_owned();
+		let stderr = String::from_utf8_lossy(&out.stderr).into_owned();
+		done += stdout.lines().filter(|l| l.starts_with("DONE ")).count() as u64;
+		let last_run: u64 = stdout.lines().filter_map(|l| l.strip_prefix("RUN ")).filter_map(|x| x.trim().parse().ok()).last().unwrap_or(from);
+		for l in stdout.lines() {
+			let p: Vec<&str> = l.splitn(4, '\t').collect();
+			if p.len() == 4 && p[0] == "V" {
+				viol.push((p[1].parse().unwrap_or(last_run), format!("miri/{}", p[2]), p[3].to_owned()));
+			}
+		}
+		if !out.status.success() && !stdout.lines().any(|l| l.starts_with("V\t")) {
+			let first = stderr.lines().find(|l| l.starts_with("error")).unwrap_or("interpreter exited with an error").to_owned();
+			let kind = if first.contains("Undefined Behavior") { "undefined-behavior" } else if first.contains("leak") { "leak" } else { "error" };
+			viol.push((last_run, format!("miri/{kind}"), format!("run {last_run} under Miri: {first}")));
+		}
+	}
+	let _ = def;
+	(viol, done, faults)
+}
+
+fn miri_replay(def: &'static PropDef, path: &Path) -> i32 {
+	let out = miri_cmd().arg("miri-case").arg(path).stdin(Stdio::null()).output();
+	let Ok(out) = out else {
+		println!("cannot start cargo miri");
+		return 2;
+	};
+	let stderr = String::from_utf8_lossy(&out.stderr);
+	let stdout = String::from_utf8_lossy(&out.stdout);
+	for l in stdout.lines().filter(|l| l.starts_with("V\t")) {
+		println!("violation: {l}");
+	}
+	if let Some(e) = stderr.lines().find(|l| l.starts_with("error")) {
+		println!("violation: [miri] {e}");
+	}
+	if out.status.success() {
+		println!("replay: no violation");
+		0
+	} else {
+		println!("VIOLATION property={} replay={}", def.id, path.display());
+		1
 	}
 }
